@@ -26,7 +26,7 @@ def check(ctx):
     import vlib
     exe = _exe(ctx)
     q = ctx.tier == 'quick'
-    args = ['--outdir', vlib.OUT, '--jobs', str(min(vlib.NJOBS, 12)), '--deadline', str(45 if q else 900)] + ([] if q else ['--thorough'])
+    args = ['--outdir', vlib.OUT, '--jobs', str(min(vlib.NJOBS, 12)), '--deadline', str(40 if q else 900)] + ([] if q else ['--thorough'])
     ctx.run_engine(exe, args, label='compose', timeout=(600 if q else 2400))
     return ctx.finish(RULE, ASSUME)
 def replay(ctx, path, obj):
